@@ -725,9 +725,15 @@ class LabelSeries:
         return len(self.d)
 
 
+def _check_mask(mask):
+    """an array used as a row mask holds truth values (or undecided ones), never numbers: an array of numbers is positions or labels, and reading it as a mask would
+    silently select nothing"""
+    if any(isinstance(m, (int, float, Fr)) and not isinstance(m, bool) for m in getattr(mask, "v", ())):
+        raise Undecided("selection by an array of numbers that is not known to be literal positions")
+
+
 def _maskload(vec, mask):
-    if any(isinstance(m, (int, Fr)) and not isinstance(m, bool) for m in mask.v):
-        raise Undecided("selection by an array of numbers that is not known to be literal positions")        # (never read as a mask: that would drop every row)
+    _check_mask(mask)
     return Vec(x if m is True else None for m, x in zip(mask.v, vec.v))
 
 
@@ -1038,6 +1044,7 @@ def df_select(d, mask):
         out.exact = True
         out.labels = [d.labels[i] for i in keep] if d.labels is not None else None
         return out
+    _check_mask(mask)
     out = DF(d.cols, d.n, "subset")
     prev = d.cols.get("__keep__", Vec([True] * d.n))
     out.cols["__keep__"] = Vec((p is True) and (m is True) for p, m in zip(prev.v, mask.v))
@@ -1170,6 +1177,7 @@ def _store_subscript(it, obj, k, v, aug=False):
         if mask is None:
             obj.cols[col] = Vec(bcast(v, n), aligned=True)
         elif isinstance(mask, Vec):
+            _check_mask(mask)
             old = obj.cols[col].v if col in obj.cols else [None] * n
             newv = bcast(v, n)
             obj.cols[col] = Vec((nv if m is True else ov for m, ov, nv in zip(mask.v, old, newv)), aligned=True)
